@@ -132,7 +132,37 @@ fn lookup_symbol(container: &V, s: u64) -> Result<Option<V>, Stop> {
             }
             Ok(found)
         }
-        V::Concat(..) | V::Slice(..) => Err(Stop::Undefined("lookup-in-concatenation-or-slice")),
+        V::Concat(..) => {
+            // a concatenation is the flat sequence of its operands' items: a list operand contributes its items, any other
+            // operand itself, however the `<>` operations were nested; with distinct keys the answer does not depend on order
+            fn flat<'a>(v: &'a V, out: &mut Vec<&'a V>) {
+                match v {
+                    V::Concat(a, b) => {
+                        flat(a, out);
+                        flat(b, out);
+                    }
+                    V::List(items) => out.extend(items.iter()),
+                    other => out.push(other),
+                }
+            }
+            let mut items = vec![];
+            flat(container, &mut items);
+            let mut found: Option<V> = None;
+            for it in items {
+                if let V::Pair(k, v) = it {
+                    if let V::Sym(ks) = **k {
+                        if ks == s {
+                            if found.is_some() {
+                                return Err(Stop::Undefined("duplicate-keys"));
+                            }
+                            found = Some((**v).clone());
+                        }
+                    }
+                }
+            }
+            Ok(found)
+        }
+        V::Slice(..) => Err(Stop::Undefined("lookup-in-concatenation-or-slice")),
         _ => Ok(None),
     }
 }
